@@ -151,13 +151,13 @@ func (c *vGnetConn) Next(n int) ([]byte, error) {
 	c.buf = c.buf[n:]
 	return b, nil
 }
-func (c *vGnetConn) InboundBuffered() int       { return len(c.buf) }
-func (c *vGnetConn) Context() interface{}       { return c.ctx }
-func (c *vGnetConn) SetContext(x interface{})   { c.ctx = x }
-func (c *vGnetConn) LocalAddr() net.Addr        { return &net.TCPAddr{IP: net.IP{192, 0, 2, 53}, Port: 53} }
-func (c *vGnetConn) RemoteAddr() net.Addr       { return &net.TCPAddr{IP: net.IP{192, 0, 2, 1}, Port: 5353} }
-func (c *vGnetConn) Close() error               { c.closed++; return nil }
-func (c *vGnetConn) Flush() error               { return nil }
+func (c *vGnetConn) InboundBuffered() int     { return len(c.buf) }
+func (c *vGnetConn) Context() interface{}     { return c.ctx }
+func (c *vGnetConn) SetContext(x interface{}) { c.ctx = x }
+func (c *vGnetConn) LocalAddr() net.Addr      { return &net.TCPAddr{IP: net.IP{192, 0, 2, 53}, Port: 53} }
+func (c *vGnetConn) RemoteAddr() net.Addr     { return &net.TCPAddr{IP: net.IP{192, 0, 2, 1}, Port: 5353} }
+func (c *vGnetConn) Close() error             { c.closed++; return nil }
+func (c *vGnetConn) Flush() error             { return nil }
 func (c *vGnetConn) Write(p []byte) (int, error) {
 	c.writes = append(c.writes, append([]byte(nil), p...))
 	return len(p), nil
